@@ -10,6 +10,7 @@ pub fn case_json(prop: &str, verif_seed: u64, idx: u64) -> Value {
     match info.engine {
         Engine::Sql | Engine::Crash => serde_json::to_value(run::gen_sql_case(prop, verif_seed, idx)).unwrap(),
         Engine::Wal => serde_json::to_value(crate::walsim::gen_case(verif_seed, idx)).unwrap(),
+        Engine::Wire => serde_json::to_value(crate::wiresim::gen_case(verif_seed, idx)).unwrap(),
         _ => json!({}),
     }
 }
@@ -19,6 +20,7 @@ pub fn sample_json(prop: &str, verif_seed: u64, idx: u64) -> Value {
     match info.engine {
         Engine::Sql | Engine::Crash => run::sample_of(&run::gen_sql_case(prop, verif_seed, idx)),
         Engine::Wal => crate::walsim::sample_of(&crate::walsim::gen_case(verif_seed, idx)),
+        Engine::Wire => crate::wiresim::sample_of(&crate::wiresim::gen_case(verif_seed, idx)),
         _ => json!({}),
     }
 }
@@ -74,6 +76,7 @@ pub fn run_one(prop: &str, verif_seed: u64, idx: u64) -> RunResult {
             r
         }
         Engine::Wal => crate::walsim::run_case(&crate::walsim::gen_case(verif_seed, idx), idx),
+        Engine::Wire => crate::wiresim::run_case(&crate::wiresim::gen_case(verif_seed, idx), idx),
         _ => unimplemented!(),
     }
 }
@@ -83,6 +86,10 @@ pub fn worker_main(args: &[String], mut out: std::fs::File) -> i32 {
     let verif_seed: u64 = args[1].parse().unwrap();
     let lo: u64 = args[2].parse().unwrap();
     let hi: u64 = args[3].parse().unwrap();
+    if props::prop(prop).map(|p| p.engine) == Some(Engine::Wire) {
+        // an unbounded allocation must kill this worker, not the machine
+        crate::wiresim::limit_memory(3 << 30);
+    }
     for idx in lo..hi {
         writeln!(out, "START {idx}").unwrap();
         out.flush().unwrap();
@@ -105,6 +112,10 @@ pub fn replay_raw(path: &str, mut out: std::fs::File) -> i32 {
     } else if engine.starts_with("E2") {
         let case: SqlReplay = serde_json::from_value(v).expect("crash replay");
         crate::crashsim::run_case(&case, 0)
+    } else if engine.starts_with("E5") {
+        crate::wiresim::limit_memory(3 << 30);
+        let case: crate::wiresim::WireReplay = serde_json::from_value(v).expect("wire replay");
+        crate::wiresim::run_case(&case, 0)
     } else if engine.starts_with("E3a") {
         let case: crate::walsim::WalReplay = serde_json::from_value(v).expect("wal replay");
         crate::walsim::run_case(&case, 0)
